@@ -287,6 +287,18 @@ class Evaluator:
             env[target.id] = value
         elif isinstance(target, (ast.Tuple, ast.List)):
             vals = list(value)
+            star = [i for i, t in enumerate(target.elts) if isinstance(t, ast.Starred)]
+            if star:
+                i = star[0]
+                tail = len(target.elts) - i - 1
+                if len(star) > 1 or len(vals) < len(target.elts) - 1:
+                    raise Raised('ValueError', 'unpack')
+                for t, v in zip(target.elts[:i], vals[:i]):
+                    self.bind(t, v, env)
+                self.bind(target.elts[i].value, vals[i:len(vals) - tail], env)
+                for t, v in zip(target.elts[i + 1:], vals[len(vals) - tail:]):
+                    self.bind(t, v, env)
+                return
             if len(vals) != len(target.elts):
                 raise Raised('ValueError', 'unpack')
             for t, v in zip(target.elts, vals):
